@@ -158,6 +158,10 @@ func flattenModule(prefix string, v interface{}, out *[]string) {
 			*out = append(*out, prefix+"=m:"+s)
 			return
 		}
+		if len(x) == 0 && prefix != "" {
+			// an empty nested object is still a field of the response (a map-valued setting nobody configured)
+			*out = append(*out, prefix+"=m:-")
+		}
 		for k, e := range x {
 			p := k
 			if prefix != "" {
